@@ -68,7 +68,7 @@ def build_evidence(prop, tier, seed, jobs, results, wall, nviol, known):
         ps = per_system.setdefault(
             r["system"],
             dict(configurations=0, states=0, transitions=0, max_depth=0, closure_reached_in=0, caps_hit=[], audited=0,
-                 watchdog_retries=0, pruned_after_violation=0, extra={}),
+                 watchdog_retries=0, pruned_after_violation=0, outside_claim=0, extra={}),
         )
         ps["configurations"] += 1
         ps["states"] += r["states"]
@@ -79,6 +79,7 @@ def build_evidence(prop, tier, seed, jobs, results, wall, nviol, known):
         ps["audited"] += r["audited"]
         ps["watchdog_retries"] += r["watchdog_retries"]
         ps["pruned_after_violation"] += r["pruned_after_violation"]
+        ps["outside_claim"] += r.get("outside_claim", 0)
         for k, v in r.get("extra", {}).items():
             if isinstance(v, (int, float)) and not isinstance(v, bool):
                 ps["extra"][k] = ps["extra"].get(k, 0) + v
